@@ -1110,6 +1110,63 @@ example :
       some (some 3, some (1 / 4)) ∧
     ¬ absR ((4 : ℚ) - 1) < TOL ∧ ¬ absR (1 / (4 : ℚ) - 1) < TOL := by decide +kernel
 
+/-- (end size, total expansion) reversed likewise: `(start size e, 1/T)` resolves to the same count and the reciprocal
+    total expansion, under the same existence hypothesis for the ratio of the reversed chop (now on the last cell `e/T`). -/
+theorem T_C03_invert_end_total {L e T c' : ℚ} {o : Oracle} {res : Vals} {n : ℕ}
+    (h : calculate T0 L o { end_ := some e, total := some T } = .ok res) (hcnt : res.count = some n) (hn : 3 ≤ n)
+    (hb : absR (T - 1) < TOL ↔ absR (1 / T - 1) < TOL)
+    (hroot : c2cCountEnd T0 (mirrorOracle o c') L n (e * (1 / T)) = .ok c') :
+    ∃ res', calculate T0 L (mirrorOracle o c') { start := some e, total := some (1 / T) } = .ok res' ∧
+      res'.count = res.count ∧ res'.total = res.total.map (fun T => 1 / T) := by
+  obtain ⟨s, n', c, hs, hn', hc, rfl⟩ := pair_end_total h
+  have : n' = n := by simpa using hcnt
+  subst this
+  obtain ⟨_, hT0', hsv⟩ := startEndTotal_ok hs
+  obtain ⟨hL, hs0, hT0, hoc, hn1, hcase⟩ := countTotalStart_ok hn'
+  have hT : 0 < T := by
+    rcases hcase with ⟨hu, _⟩ | ⟨_, hT, _⟩
+    · by_contra hneg
+      have hle : T ≤ 0 := not_lt.mp hneg
+      have h1 : absR (T - 1) = 1 - T := by unfold absR; rw [if_pos (by linarith)]; ring
+      rw [h1] at hu
+      have := TOL_lt_one
+      linarith
+    · exact hT
+  have hTi : (0 : ℚ) < 1 / T := by positivity
+  have hse : s * T = e := by rw [hsv]; field_simp
+  have he0 : 0 < e := by rw [← hse]; positivity
+  have hcount : countTotalStart T0 (mirrorOracle o c') L (1 / T) e = .ok n' := by
+    unfold countTotalStart
+    simp only [guardLen_bind, guardSize_bind, guardRatio_bind]
+    rw [if_neg (not_le.mpr hL), if_neg (not_le.mpr he0), if_neg (ne_of_gt hTi)]
+    rcases hcase with ⟨hu, hok⟩ | ⟨hnu, _, hok⟩
+    · rw [if_pos (hb.mp hu), ← hse, dMin_inv hT]
+      exact oracleCount_intro hoc hn1 hok
+    · rw [if_neg (fun hh => absurd (hb.mpr hh) (not_lt.mpr hnu)), if_neg (not_lt.mpr (le_of_lt hTi)), ← hse]
+      exact oracleCount_intro hoc hn1 (countTOK_inv hn hok)
+  refine ⟨(⟨some n', some e, some (e * (1 / T)), some c', some (1 / T)⟩ : Vals), ?_, rfl, rfl⟩
+  rw [calculate_ok_iff (k := 2) (by exact plan_start_total), runSteps3]
+  refine ⟨{ count := some n', start := some e, total := some (1 / T) },
+    { count := some n', start := some e, end_ := some (e * (1 / T)), total := some (1 / T) }, ?_, ?_, ?_⟩
+  · simp only [applyRel, map_ok]
+    exact ⟨n', hcount, rfl⟩
+  · simp only [applyRel, map_ok]
+    refine ⟨e * (1 / T), ?_, rfl⟩
+    unfold endStartTotal
+    simp only [guardLen_bind, guardRatio_bind]
+    rw [if_neg (not_le.mpr hL), if_neg (ne_of_gt hTi)]
+    rfl
+  · simp only [applyRel, map_ok]
+    exact ⟨c', hroot, rfl⟩
+
+
+example :
+    let o : Oracle := { count := some 3, c2c := some 2, w1 := some 2, w2 := some 4 }
+    returned (calculate T0 1 o { end_ := some (4 / 7), total := some 4 }) = some (some 3, some 4) ∧
+    c2cCountEnd T0 (mirrorOracle o (1 / 2)) 1 3 (4 / 7 * (1 / 4)) = .ok (1 / 2) ∧
+    returned (calculate T0 1 (mirrorOracle o (1 / 2)) { start := some (4 / 7), total := some (1 / 4) }) =
+      some (some 3, some (1 / 4)) := by decide +kernel
+
 /-! ### 7b. histories on one `Chop` object: `calculate` keeps no memory -/
 
 /-- Every `calculate` inside a history of calls on one object answers exactly what a fresh chop with the current
